@@ -478,7 +478,7 @@ fn run_c10_body(ctx: &mut Ctx) -> Verdict {
             next_tag += 1;
         }
         let which = ctx.tape.below(pool.len());
-        let opk = ctx.tape.draw(18);
+        let opk = ctx.tape.draw(20);
         let opname: &'static str;
         match opk {
             0..=4 => {
@@ -559,6 +559,40 @@ fn run_c10_body(ctx: &mut Ctx) -> Verdict {
                     );
                     let (s, m, _) = &mut pool[which];
                     store_insert(s, m, &q)?;
+                }
+            }
+            16 => {
+                opname = "clone_from";
+                // Clone::clone_from between two stores of the same kind: typically an older clone
+                // refreshed from an original that has grown since (or the other way round)
+                let other = ctx.tape.below(pool.len());
+                if other != which {
+                    let (lo, hi) = (which.min(other), which.max(other));
+                    let (x, y) = pool.split_at_mut(hi);
+                    let (dst, src) = if which < other { (&mut x[lo], &y[0]) } else { (&mut y[0], &x[lo]) };
+                    let same_kind = std::mem::discriminant(&dst.0) == std::mem::discriminant(&src.0);
+                    if same_kind {
+                        match (&mut dst.0, &src.0) {
+                            (Store::FastD(d), Store::FastD(s)) => d.clone_from(s),
+                            (Store::LightD(d), Store::LightD(s)) => d.clone_from(s),
+                            (Store::SmallFastD(d), Store::SmallFastD(s)) => d.clone_from(s),
+                            (Store::SmallLightD(d), Store::SmallLightD(s)) => d.clone_from(s),
+                            (Store::TinyFastD(d), Store::TinyFastD(s)) => d.clone_from(s),
+                            (Store::TinyLightD(d), Store::TinyLightD(s)) => d.clone_from(s),
+                            (Store::FastG(d), Store::FastG(s)) => d.clone_from(s),
+                            (Store::LightG(d), Store::LightG(s)) => d.clone_from(s),
+                            (Store::SmallFastG(d), Store::SmallFastG(s)) => d.clone_from(s),
+                            (Store::SmallLightG(d), Store::SmallLightG(s)) => d.clone_from(s),
+                            (Store::TinyFastG(d), Store::TinyFastG(s)) => d.clone_from(s),
+                            (Store::Index32(d), Store::Index32(s)) => d.clone_from(s),
+                            (Store::Index16(d), Store::Index16(s)) => d.clone_from(s),
+                            _ => {}
+                        }
+                        dst.1 = src.1.clone();
+                        dst.2 = format!("{}<-clone_from({})", dst.2.split('<').next().unwrap_or("s"), src.2.split('<').next().unwrap_or("s"));
+                        ctx.fault_in_op = true;
+                        ctx.probe("clone_from_same_kind");
+                    }
                 }
             }
             15 => {
